@@ -701,7 +701,14 @@ def _fixed_cases(tier):
             ]
         cases += [{"c": L, "parts": [["0", n], " m"]}, {"c": L, "parts": ["m^", ["0", n], "2"]}]
     for e in (30, 308, 309, 400):
-        for sym in ("m", "km", "KiB", "dB"):
+        for sym in ("m", "km", "KiB", "dB", "kB", "MB"):
+            # huge powers that cancel within one text (inf - inf in prefix arithmetic)
+            cases += [
+                {"c": L, "parts": [sym, "^", ["9", e], "/", sym, "^", ["9", e]]},
+                {"c": L, "parts": [sym, "^", ["9", e], "*", sym, "^-", ["9", e]]},
+                {"c": L, "parts": ["5 m*", sym, "^-", ["9", e], "/s*GB^-", ["9", e]]},
+                {"c": L, "parts": [sym, ["⁹", e], "/KiB", ["⁹", e]]},
+            ]
             cases += [
                 {"c": L, "parts": [sym, "^", ["9", e]]},
                 {"c": L, "parts": [sym, "^-", ["9", e]]},
